@@ -451,7 +451,12 @@ pub fn vendor(d: &mut D) {
             let mut msg: Vec<u8> = match rep % 6 {
                 0 => id.clone(),
                 1 => id[2..].to_vec(),
-                2 => vec![if fmt == 0 { 0x7E } else { 0x7F }, id[2], id[3]],
+                2 => {
+                    // the message type byte followed by the identifier exactly as it appears on the wire
+                    let mut m = vec![if fmt == 0 { 0x7Eu8 } else { 0x7F }];
+                    m.extend_from_slice(if fmt == 0 { &id[2..] } else { &id[..] });
+                    m
+                }
                 3 => vec![dst << 1, 0x0F, 9, (0x19 << 1) | 1, 1, dst, 0x19, 0xC8],
                 4 => id.iter().rev().cloned().collect(),
                 _ => vec![dst, 0x19, dst, 0x19],
@@ -462,6 +467,29 @@ pub fn vendor(d: &mut D) {
             let p = d.enc_vendor(10, vendor_args(dst, fmt, &id, 0, &msg), 64);
             k += 1;
             check_pkt(d, &p, k * 8);
+        }
+    }
+    // a sending context that has been given an EID; destinations equal to that EID, to its address, others
+    d.new_ctx(32, 0x3C, &[], &[(0, [0, 0, 0, 1], [0, 0])]);
+    for (er, es) in [(0x4Au64, 0x4A), (0x4A, 0x2D), (0, 0x4A), (0x3C, 0x3C), (0xFF, 0xFF)] {
+        d.ex(json!({"op":"set_eid","ctx":32,"half":"req","eid":er}));
+        d.ex(json!({"op":"set_eid","ctx":32,"half":"resp","eid":es}));
+        for dst in [0x4Au8, 0x2D, 0x3C, 0x11, 0xFF, 0x00] {
+            for fmt in 0..2u64 {
+                let id = d.g.bytes(4);
+                let msg = d.g.bytes(3);
+                let p = d.enc_vendor(32, vendor_args(dst, fmt, &id, 0, &msg), 40);
+                k += 1;
+                check_pkt(d, &p, k);
+            }
+            for half in ["req", "resp"] {
+                for kind in ["pci", "iana", "spdm", "secured"] {
+                    let data = d.g.bytes(4);
+                    let p = d.enc_gen(32, half, kind, json!({"dst":dst,"has_hdr":0,"hdr":[],"data":jb(&data)}), 40);
+                    k += 1;
+                    check_pkt(d, &p, k);
+                }
+            }
         }
     }
     // every format byte
